@@ -12,6 +12,8 @@ T={
        "Characters limited to listed alphabets; lengths bounded (cover len == k*cols for every width).", "exhaustive input enumeration against the real implementation, exact expected-value oracle"),
 "C10":("All states reachable by an editing alphabet up to the depth bound are used as seeds; from each, every chain of <=2 resizes over 10 sizes; each resize judged by a relational oracle on logical lines and the cursor's logical position.",
        "Unlimited scrollback, primary screen, sizes <= 4x3.", BFS+" + exhaustive resize chains, relational oracle"),
+"C11":("BFS over op histories (modes, margins, save/restore, both screens, edits, SGR, tabs, charsets, resets, 14 truncated sequences, resizes); at every distinct state dump() is fed to a fresh terminal and the pair is compared immediately, after each of ~60 probes and after every feed op of the alphabet. Failing states are KNOWN-FINDINGs only when black-box measurements place them in one of three listed classes.",
+       "Observational equivalence through the public API; classes KF-C11-a/b/c are excused as recorded in known_findings.json.", "explicit-state BFS of the implementation + differential twin (original vs restored) with probe battery"),
 "C12":("All token strings of <=k tokens over 32 complete texts/sequences; for each, ALL 2^(n-1) cut patterns are covered by a cut-DAG (position x implementation fingerprint) and feed() per char; every final node compared (screen, cursor, dump, lines() when unlimited) with the single-call result.",
        "DAG merging is sound because the future of a call boundary depends only on the implementation state (fingerprint of Debug).", "explicit-state exploration of the cut-DAG of the real implementation, differential oracle"),
 "C14":("Product exploration of (limited, unlimited) terminals fed the same histories (scroll regions, DL/IL at top, alt-screen excursions, per-char feeds) for limits 0,1,2,3,10,11; after every call: handed-out lines ++ lines() == unlimited lines(); TextCollector compared across limits/chunkings at every state.",
@@ -20,6 +22,10 @@ T={
        "Alternate-screen status tracked syntactically; sizes tiny.", BFS+", invariant oracle after every call"),
 "C15":("BFS over all functions incl. resizes; before/after view snapshots of every feed_str/resize call are diffed cell by cell against Changes.lines.",
        "Cells = char + pen (not wrap marks).", BFS+", before/after differential oracle"),
+"C19":("Same seed exploration as C11; at every state ESC c is applied and the result compared with a fresh terminal (all of lines(), cursor, cursor-key mode, dump) immediately, after each probe and after every feed op; also ESC c delivered per char.",
+       "Observational equivalence + dump equality.", "explicit-state BFS of the implementation + differential twin (reset vs fresh) with probe battery"),
+"C20":("Every reachable seed state (all-functions alphabet) x ~9.6k (quick) / ~100k (thorough) inert inputs enumerated exhaustively by class: no changed lines, identical lines()/cursor/dump, following char handled from ground, hidden state identical; bare Parser dispatches nothing and ends in Ground.",
+       "Seeds in parser ground state; payload alphabet = class representatives.", "explicit-state BFS seeds x exhaustive inert-input enumeration, before/after differential oracle"),
 }
 claimed=sorted(T)
 checks=[]
